@@ -528,6 +528,12 @@ class ScriptGen:
                         and t.chance(0.2, "hilen") and self.arrs(D, arr_n):
                     hi_e = Call("<builtin>len", [Var(self.pick(self.arrs(D, arr_n), "la"))])
             self.counter_range[c] = (lo_v, max(hi_v, lo_v))
+            if li >= 1 and t.chance(0.3, "triangular"):
+                # a triangular nest: the inner bound mentions the outer loop variable (bounds are evaluated when
+                # the loop is entered, inside the outer iteration)
+                outer = ctrs[-1]
+                lo_e, hi_e = Const(0), Bin("+", Var(outer), Const(1))
+                self.counter_range[c] = (0, self.counter_range[outer][1])
             loops.append((c, lo_e, hi_e))
             ctrs.append(c)
         return loops, tuple(ctrs)
